@@ -72,105 +72,8 @@ Proof.
 Qed.
 
 (* ------------------------------------------------------------------------------------------------ *)
-(* Part A: one request against the server (cfg_model)                                                 *)
+(* facts that hold for every cfg                                                                      *)
 (* ------------------------------------------------------------------------------------------------ *)
-Lemma do_open_model accept st :
-  do_open cfg_model accept st =
-  if accept then
-    match r_ctx st with
-    | Some _ => (st, ERuntime)
-    | None =>
-        if draining (r_srv st) then (st, EDraining)
-        else (mkRst (mkServer (reg (r_srv st) ++ [next (r_srv st)]) (S (next (r_srv st))) (draining (r_srv st)))
-                    (Some (next (r_srv st))) (mkSink (Some (next (r_srv st))) false) (r_log st), ENone)
-    end
-  else (st, ERuntime).
-Proof.
-  unfold do_open. simpl. destruct accept; simpl; [|reflexivity].
-  destruct (r_ctx st); simpl; [reflexivity|].
-  destruct (draining (r_srv st)) eqn:D; simpl; try rewrite D; reflexivity.
-Qed.
-
-Lemma do_close_model st :
-  do_close cfg_model st =
-  (mkRst match r_ctx st with
-         | Some x => mkServer (remove_sid x (reg (r_srv st))) (next (r_srv st)) (draining (r_srv st))
-         | None => r_srv st
-         end None (mkSink None true) (r_log st), ENone).
-Proof. reflexivity. Qed.
-
-Lemma do_open_refused accept st :
-  accept = false \/ draining (r_srv st) = true ->
-  do_open cfg_model accept st = (st, ERuntime) \/ do_open cfg_model accept st = (st, EDraining).
-Proof.
-  intros H. rewrite do_open_model. destruct H as [H|H].
-  - subst accept. left; reflexivity.
-  - destruct accept; [|left; reflexivity]. destruct (r_ctx st); [left; reflexivity|]. rewrite H. right; reflexivity.
-Qed.
-
-(* no request registers a session without the opt-in, or while draining *)
-Lemma run_acts_no_open accept : forall acts st,
-  accept = false \/ draining (r_srv st) = true ->
-  next (r_srv (fst (run_acts cfg_model accept st acts))) = next (r_srv st) /\
-  draining (r_srv (fst (run_acts cfg_model accept st acts))) = draining (r_srv st) /\
-  incl (reg (r_srv (fst (run_acts cfg_model accept st acts)))) (reg (r_srv st)).
-Proof.
-  induction acts as [|a acts IH]; intros st H; cbn [run_acts].
-  - repeat split; try reflexivity. apply incl_refl.
-  - destruct a; cbn [do_action].
-    + (* open: refused *)
-      destruct (do_open_refused accept st H) as [E|E]; rewrite E; simpl; repeat split; try reflexivity; apply incl_refl.
-    + rewrite do_close_model.
-      set (st' := mkRst _ None (mkSink None true) (r_log st)).
-      assert (Hd : draining (r_srv st') = draining (r_srv st)) by (subst st'; simpl; destruct (r_ctx st); reflexivity).
-      assert (Hn : next (r_srv st') = next (r_srv st)) by (subst st'; simpl; destruct (r_ctx st); reflexivity).
-      assert (Hi : incl (reg (r_srv st')) (reg (r_srv st))).
-      { subst st'; simpl; destruct (r_ctx st); simpl; [|apply incl_refl]. unfold remove_sid. apply incl_filter. }
-      destruct (IH st') as [A [B C]]; [rewrite Hd; exact H|].
-      rewrite A, B, Hn, Hd. repeat split; try reflexivity. eapply incl_tran; eassumption.
-    + apply (IH (mkRst (r_srv st) (r_ctx st) (r_sink st) (r_log st ++ [r_ctx st]))). exact H.
-    + apply IH. exact H.
-Qed.
-
-Lemma serve_no_open s r :
-  rq_accept r = false \/ draining s = true ->
-  next (fst (serve cfg_model s r)) = next s /\ incl (reg (fst (serve cfg_model s r))) (reg s).
-Proof.
-  intros H. unfold serve.
-  assert (D : forall ctx, next (fst (dispatch cfg_model s ctx r)) = next s /\ incl (reg (fst (dispatch cfg_model s ctx r))) (reg s)).
-  { intros ctx. unfold dispatch.
-    pose proof (run_acts_no_open (rq_accept r) (rq_acts r) (mkRst s ctx (mkSink None false) []) H) as [A [_ C]].
-    destruct (run_acts cfg_model (rq_accept r) (mkRst s ctx (mkSink None false) []) (rq_acts r)) as [st e]. simpl in *.
-    split; assumption. }
-  destruct (rq_tok r) as [t|]; [|apply D].
-  destruct (mem t (reg s)); [apply D|]. simpl. split; [reflexivity | apply incl_refl].
-Qed.
-
-Lemma open_only_with_accept_and_not_draining s r x :
-  In x (reg (fst (serve cfg_model s r))) -> ~ In x (reg s) -> rq_accept r = true /\ draining s = false.
-Proof.
-  intros Hin Hnot.
-  destruct (rq_accept r) eqn:A, (draining s) eqn:D; try (split; reflexivity); exfalso; apply Hnot;
-    (apply (proj2 (serve_no_open s r ltac:(first [left; exact A | right; exact D]))); exact Hin).
-Qed.
-
-Lemma no_new_id_without_accept_or_draining s r :
-  rq_accept r = false \/ draining s = true -> next (fst (serve cfg_model s r)) = next s.
-Proof. intros H. apply serve_no_open; exact H. Qed.
-
-(* an open attempt that passed the opt-in and not-bound tests while draining is refused as server_draining *)
-Lemma draining_open_refused st :
-  draining (r_srv st) = true -> r_ctx st = None -> do_action cfg_model true st AOpen = (st, EDraining).
-Proof. intros D C. simpl. rewrite do_open_model, C, D. reflexivity. Qed.
-
-Lemma draining_first_open_request s acts :
-  draining s = true ->
-  serve cfg_model s (mkReq None true (AOpen :: acts)) = (s, mkResp None false EDraining []).
-Proof.
-  intros D. unfold serve, dispatch. cbn [rq_tok rq_accept rq_acts run_acts].
-  rewrite (draining_open_refused (mkRst s None (mkSink None false) []) D eq_refl). reflexivity.
-Qed.
-
 (* server_draining is only ever answered by a draining worker *)
 Lemma first_err_draining gs accept st : first_err gs accept st = Some EDraining -> draining (r_srv st) = true.
 Proof.
@@ -305,3 +208,412 @@ Proof.
     destruct (run_acts c (rq_accept r) (mkRst s (Some t) (mkSink None false) [Some t]) acts') as [st e].
     exists l. exact Hl.
 Qed.
+
+(* ------------------------------------------------------------------------------------------------ *)
+(* Part A: one request against the server, for every cfg with the source's guard order              *)
+(* ------------------------------------------------------------------------------------------------ *)
+(* What the theorems need of the regenerated programs (checked for gen_cfg in tie/T_StickyLife.v):
+   whatever the sink held before, after _StickySink.open the emitted headers make the client hold the new token,
+   after _StickySink.close they make it hold none, a fresh sink and a response without session headers leave the
+   view alone. *)
+Definition good_cfg (c : cfg) : Prop :=
+  forall (t0 : option nat) (k : sink) (n : nat),
+    capture c t0 (emit c (apply_upds (Some n) k (c_sink_open c))) = Some n /\
+    capture c t0 (emit c (apply_upds None k (c_sink_close c))) = None /\
+    capture c t0 (emit c (mkSink None false)) = t0 /\
+    capture c t0 (None, false) = t0.
+
+Definition model_guards : list guard := [GNoSink; GNotAccept; GBound; GDraining].
+
+Section Good.
+Variable c : cfg.
+Hypothesis Hguards : c_open_guards c = model_guards.
+
+Lemma do_open_model accept st :
+  do_open c accept st =
+  if accept then
+    match r_ctx st with
+    | Some _ => (st, ERuntime)
+    | None =>
+        if draining (r_srv st) then (st, EDraining)
+        else (mkRst (mkServer (reg (r_srv st) ++ [next (r_srv st)]) (S (next (r_srv st))) (draining (r_srv st)))
+                    (Some (next (r_srv st))) (apply_upds (Some (next (r_srv st))) (r_sink st) (c_sink_open c)) (r_log st), ENone)
+    end
+  else (st, ERuntime).
+Proof.
+  unfold do_open. rewrite Hguards. unfold model_guards. simpl. destruct accept; simpl; [|reflexivity].
+  destruct (r_ctx st); simpl; [reflexivity|].
+  destruct (draining (r_srv st)) eqn:D; simpl; try rewrite D; reflexivity.
+Qed.
+
+Lemma do_close_model st :
+  do_close c st =
+  (mkRst match r_ctx st with
+         | Some x => mkServer (remove_sid x (reg (r_srv st))) (next (r_srv st)) (draining (r_srv st))
+         | None => r_srv st
+         end None (apply_upds None (r_sink st) (c_sink_close c)) (r_log st), ENone).
+Proof. reflexivity. Qed.
+
+Lemma do_open_refused accept st :
+  accept = false \/ draining (r_srv st) = true ->
+  do_open c accept st = (st, ERuntime) \/ do_open c accept st = (st, EDraining).
+Proof.
+  intros H. rewrite do_open_model. destruct H as [H|H].
+  - subst accept. left; reflexivity.
+  - destruct accept; [|left; reflexivity]. destruct (r_ctx st); [left; reflexivity|]. rewrite H. right; reflexivity.
+Qed.
+
+(* no request registers a session without the opt-in, or while draining *)
+Lemma run_acts_no_open accept : forall acts st,
+  accept = false \/ draining (r_srv st) = true ->
+  next (r_srv (fst (run_acts c accept st acts))) = next (r_srv st) /\
+  draining (r_srv (fst (run_acts c accept st acts))) = draining (r_srv st) /\
+  incl (reg (r_srv (fst (run_acts c accept st acts)))) (reg (r_srv st)).
+Proof.
+  induction acts as [|a acts IH]; intros st H; cbn [run_acts].
+  - repeat split; try reflexivity. apply incl_refl.
+  - destruct a; cbn [do_action].
+    + (* open: refused *)
+      destruct (do_open_refused accept st H) as [E|E]; rewrite E; simpl; repeat split; try reflexivity; apply incl_refl.
+    + rewrite do_close_model.
+      set (st' := mkRst _ None _ (r_log st)).
+      assert (Hd : draining (r_srv st') = draining (r_srv st)) by (subst st'; simpl; destruct (r_ctx st); reflexivity).
+      assert (Hn : next (r_srv st') = next (r_srv st)) by (subst st'; simpl; destruct (r_ctx st); reflexivity).
+      assert (Hi : incl (reg (r_srv st')) (reg (r_srv st))).
+      { subst st'; simpl; destruct (r_ctx st); simpl; [|apply incl_refl]. unfold remove_sid. apply incl_filter. }
+      destruct (IH st') as [A [B C]]; [rewrite Hd; exact H|].
+      rewrite A, B, Hn, Hd. repeat split; try reflexivity. eapply incl_tran; eassumption.
+    + apply (IH (mkRst (r_srv st) (r_ctx st) (r_sink st) (r_log st ++ [r_ctx st]))). exact H.
+    + apply IH. exact H.
+Qed.
+
+Lemma serve_no_open s r :
+  rq_accept r = false \/ draining s = true ->
+  next (fst (serve c s r)) = next s /\ incl (reg (fst (serve c s r))) (reg s).
+Proof.
+  intros H. unfold serve.
+  assert (D : forall ctx, next (fst (dispatch c s ctx r)) = next s /\ incl (reg (fst (dispatch c s ctx r))) (reg s)).
+  { intros ctx. unfold dispatch.
+    pose proof (run_acts_no_open (rq_accept r) (rq_acts r) (mkRst s ctx (mkSink None false) []) H) as [A [_ C]].
+    destruct (run_acts c (rq_accept r) (mkRst s ctx (mkSink None false) []) (rq_acts r)) as [st e]. simpl in *.
+    split; assumption. }
+  destruct (rq_tok r) as [t|]; [|apply D].
+  destruct (mem t (reg s)); [apply D|]. simpl. split; [reflexivity | apply incl_refl].
+Qed.
+
+Lemma open_only_with_accept_and_not_draining s r x :
+  In x (reg (fst (serve c s r))) -> ~ In x (reg s) -> rq_accept r = true /\ draining s = false.
+Proof.
+  intros Hin Hnot.
+  destruct (rq_accept r) eqn:A, (draining s) eqn:D; try (split; reflexivity); exfalso; apply Hnot;
+    (apply (proj2 (serve_no_open s r ltac:(first [left; exact A | right; exact D]))); exact Hin).
+Qed.
+
+Lemma no_new_id_without_accept_or_draining s r :
+  rq_accept r = false \/ draining s = true -> next (fst (serve c s r)) = next s.
+Proof. intros H. apply serve_no_open; exact H. Qed.
+
+(* an open attempt that passed the opt-in and not-bound tests while draining is refused as server_draining *)
+Lemma draining_open_refused st :
+  draining (r_srv st) = true -> r_ctx st = None -> do_action c true st AOpen = (st, EDraining).
+Proof. intros D C. simpl. rewrite do_open_model, C, D. reflexivity. Qed.
+
+Lemma draining_first_open_request s acts :
+  draining s = true ->
+  fst (serve c s (mkReq None true (AOpen :: acts))) = s /\
+  rs_err (snd (serve c s (mkReq None true (AOpen :: acts)))) = EDraining /\
+  rs_log (snd (serve c s (mkReq None true (AOpen :: acts)))) = [].
+Proof.
+  intros D. unfold serve, dispatch. cbn [rq_tok rq_accept rq_acts run_acts].
+  rewrite (draining_open_refused (mkRst s None (mkSink None false) []) D eq_refl).
+  cbn [fst snd r_srv r_log rs_err rs_log]. repeat split.
+Qed.
+
+(* ------------------------------------------------------------------------------------------------ *)
+(* Part B: the client's view against the registry, over all histories                                 *)
+(* ------------------------------------------------------------------------------------------------ *)
+(* ids that are "this request's own": the presented token and everything minted from next0 on *)
+Definition mine (next0 : nat) (t0 : option nat) (s : nat) : bool := (next0 <=? s) || onat_eqb t0 (Some s).
+Definition notmine (next0 : nat) (t0 : option nat) (s : nat) : bool := negb (mine next0 t0 s).
+
+Hypothesis Hgood : good_cfg c.
+
+Definition J (reg0 : list nat) (next0 : nat) (dr0 : bool) (t0 : option nat) (st : rst) : Prop :=
+  next0 <= next (r_srv st) /\
+  Forall (fun s => s < next (r_srv st)) (reg (r_srv st)) /\
+  filter (mine next0 t0) (reg (r_srv st)) = opt_list (r_ctx st) /\
+  filter (notmine next0 t0) (reg (r_srv st)) = filter (notmine next0 t0) reg0 /\
+  capture c t0 (emit c (r_sink st)) = r_ctx st /\
+  draining (r_srv st) = dr0.
+
+Lemma remove_sid_noop x l : (forall y, In y l -> y <> x) -> remove_sid x l = l.
+Proof.
+  intros H. unfold remove_sid. apply filter_all_true. intros y Hy.
+  apply negb_true_iff. apply Nat.eqb_neq. apply H; exact Hy.
+Qed.
+
+Lemma J_step reg0 next0 dr0 t0 st a :
+  J reg0 next0 dr0 t0 st -> J reg0 next0 dr0 t0 (fst (do_action c true st a)).
+Proof.
+  intros [Hn [Hf [Hm [Ho [Hc Hd]]]]].
+  destruct a; cbn [do_action].
+  - (* open *)
+    rewrite do_open_model. destruct (r_ctx st) as [x|] eqn:C.
+    + simpl. unfold J. rewrite C. repeat split; assumption.
+    + destruct (draining (r_srv st)) eqn:D.
+      * simpl. unfold J. rewrite C, D. repeat split; assumption.
+      * cbn [fst]. unfold J. cbn [r_srv r_ctx r_sink reg next draining].
+        assert (Hmine : mine next0 t0 (next (r_srv st)) = true).
+        { unfold mine. apply orb_true_iff. left. apply Nat.leb_le. exact Hn. }
+        repeat split.
+        -- lia.
+        -- apply Forall_app. split.
+           ++ eapply Forall_impl; [|exact Hf]. simpl. intros; lia.
+           ++ constructor; [lia | constructor].
+        -- rewrite filter_app, Hm. simpl. rewrite Hmine. reflexivity.
+        -- rewrite filter_app, Ho. simpl. unfold notmine at 2. rewrite Hmine. simpl. apply app_nil_r.
+        -- exact (proj1 (Hgood t0 (r_sink st) (next (r_srv st)))).
+        -- exact Hd.
+  - (* close *)
+    rewrite do_close_model. cbn [fst]. unfold J. cbn [r_srv r_ctx r_sink].
+    destruct (r_ctx st) as [x|] eqn:C.
+    + cbn [reg next draining].
+      assert (Hx : mine next0 t0 x = true).
+      { assert (In x (filter (mine next0 t0) (reg (r_srv st)))) by (rewrite Hm; left; reflexivity).
+        apply filter_In in H. apply H. }
+      repeat split.
+      * exact Hn.
+      * apply Forall_filter_keep. exact Hf.
+      * unfold remove_sid. rewrite filter_comm, Hm. simpl. rewrite Nat.eqb_refl. reflexivity.
+      * unfold remove_sid. rewrite filter_comm. fold (remove_sid x (filter (notmine next0 t0) (reg (r_srv st)))).
+        rewrite remove_sid_noop; [exact Ho|].
+        intros y Hy E. subst y. apply filter_In in Hy as [_ Hy]. unfold notmine in Hy. rewrite Hx in Hy. discriminate.
+      * exact (proj1 (proj2 (Hgood t0 (r_sink st) 0))).
+      * exact Hd.
+    + repeat split; try assumption. exact (proj1 (proj2 (Hgood t0 (r_sink st) 0))).
+  - (* resume *) exact (conj Hn (conj Hf (conj Hm (conj Ho (conj Hc Hd))))).
+  - exact (conj Hn (conj Hf (conj Hm (conj Ho (conj Hc Hd))))).
+Qed.
+
+Lemma J_run reg0 next0 dr0 t0 : forall acts st,
+  J reg0 next0 dr0 t0 st -> J reg0 next0 dr0 t0 (fst (run_acts c true st acts)).
+Proof.
+  induction acts as [|a acts IH]; intros st H; cbn [run_acts]; [exact H|].
+  pose proof (J_step reg0 next0 dr0 t0 st a H) as H'.
+  destruct (do_action c true st a) as [st' e]. simpl in H'.
+  destruct e; simpl; try exact H'. apply IH. exact H'.
+Qed.
+
+(* one request of a view whose token is t0, on a server where t0 names exactly the view's live session *)
+Lemma serve_view_spec s t0 acts :
+  Forall (fun x => x < next s) (reg s) ->
+  filter (mine (next s) t0) (reg s) = opt_list t0 ->
+  let s' := fst (serve c s (mkReq t0 true acts)) in
+  let rsp := snd (serve c s (mkReq t0 true acts)) in
+  let v' := capture c t0 (h_tok rsp, h_close rsp) in
+  next s <= next s' /\
+  Forall (fun x => x < next s') (reg s') /\
+  filter (mine (next s) t0) (reg s') = opt_list v' /\
+  filter (notmine (next s) t0) (reg s') = filter (notmine (next s) t0) (reg s) /\
+  draining s' = draining s.
+Proof.
+  intros Hf Hm.
+  assert (D : let s' := fst (dispatch c s t0 (mkReq t0 true acts)) in
+              let rsp := snd (dispatch c s t0 (mkReq t0 true acts)) in
+              let v' := capture c t0 (h_tok rsp, h_close rsp) in
+              next s <= next s' /\ Forall (fun x => x < next s') (reg s') /\
+              filter (mine (next s) t0) (reg s') = opt_list v' /\
+              filter (notmine (next s) t0) (reg s') = filter (notmine (next s) t0) (reg s) /\
+              draining s' = draining s).
+  { unfold dispatch. cbn [rq_accept rq_acts].
+    assert (J0 : J (reg s) (next s) (draining s) t0 (mkRst s t0 (mkSink None false) [])).
+    { unfold J. cbn [r_srv r_ctx r_sink]. repeat split; try assumption; [apply le_n | exact (proj1 (proj2 (proj2 (Hgood t0 (mkSink None false) 0))))]. }
+    pose proof (J_run (reg s) (next s) (draining s) t0 acts _ J0) as JR.
+    destruct (run_acts c true (mkRst s t0 (mkSink None false) []) acts) as [st e].
+    cbn [fst snd] in *. destruct JR as [Hn [Hf' [Hm' [Ho' [Hc' Hd']]]]].
+    cbn [h_tok h_close]. rewrite <- surjective_pairing. rewrite Hc'.
+    repeat split; assumption. }
+  unfold serve. cbn [rq_tok].
+  destruct t0 as [t|]; [|exact D].
+  destruct (mem t (reg s)); [exact D|].
+  cbn [fst snd h_tok h_close]. rewrite (proj2 (proj2 (proj2 (Hgood (Some t) (mkSink None false) 0)))).
+  repeat split; try assumption; apply le_n.
+Qed.
+
+(* ---- world invariant ---- *)
+Definition Inv (w : world) : Prop :=
+  length (w_own w) = next (w_srv w) /\
+  Forall (fun s => s < next (w_srv w)) (reg (w_srv w)) /\
+  Forall (fun o => exists v, o = Some v) (w_own w) /\
+  forall v, live_of w v = opt_list (w_view w v).
+
+Lemma owner_unique own u v s : owner_is own u s = true -> owner_is own v s = true -> u = v.
+Proof.
+  unfold owner_is. destruct (nth_error own s) as [[x|]|]; try discriminate.
+  intros A B. apply Nat.eqb_eq in A. apply Nat.eqb_eq in B. congruence.
+Qed.
+
+Lemma owner_app_old own ext v s : s < length own -> owner_is (own ++ ext) v s = owner_is own v s.
+Proof. intros H. unfold owner_is. rewrite nth_error_app1 by exact H. reflexivity. Qed.
+
+Lemma owner_app_new own v u n s :
+  length own <= s -> s < length own + n -> owner_is (own ++ repeat (Some v) n) u s = (v =? u).
+Proof.
+  intros H1 H2. unfold owner_is. rewrite nth_error_app2 by exact H1.
+  rewrite nth_error_repeat by lia. reflexivity.
+Qed.
+
+Lemma Inv_world0 : Inv world0.
+Proof.
+  unfold Inv, world0, live_of. simpl. repeat split; try constructor.
+Qed.
+
+Lemma Inv_view w v acts : Inv w -> Inv (fst (step c w (EvView v acts))).
+Proof.
+  intros [Hlen [Hf [Hsome Hlive]]].
+  set (s := w_srv w) in *. set (t0 := w_view w v) in *. set (own := w_own w) in *.
+  (* the view's token names exactly its live session; as a filter on `mine` *)
+  assert (Hown0 : forall x, In x (reg s) -> mine (next s) t0 x = true -> owner_is own v x = true).
+  { intros x Hx Hm. unfold mine in Hm. apply orb_true_iff in Hm as [Hm|Hm].
+    - apply Nat.leb_le in Hm. rewrite Forall_forall in Hf. specialize (Hf x Hx). lia.
+    - apply onat_eqb_some in Hm.
+      assert (In x (live_of w v)) by (rewrite Hlive; apply in_opt_list; exact Hm).
+      unfold live_of in H. apply filter_In in H. apply H. }
+  assert (Hm0 : filter (mine (next s) t0) (reg s) = opt_list t0).
+  { rewrite (filter_filter_imp (mine (next s) t0) (owner_is own v) (reg s) Hown0).
+    change (filter (owner_is own v) (reg s)) with (live_of w v). rewrite Hlive. fold t0.
+    destruct t0 as [t|]; simpl; [|reflexivity].
+    unfold mine. simpl. rewrite Nat.eqb_refl, orb_true_r. reflexivity. }
+  pose proof (serve_view_spec s t0 acts Hf Hm0) as Spec.
+  cbn [step]. fold s t0 own.
+  destruct (serve c s (mkReq t0 true acts)) as [s' rsp] eqn:ES.
+  cbn [fst snd] in Spec. destruct Spec as [Hn [Hf' [Hm' [Ho' _]]]].
+  set (v' := capture c t0 (h_tok rsp, h_close rsp)) in *.
+  set (own' := own ++ repeat (Some v) (next s' - next s)).
+  cbn [fst]. unfold Inv. cbn [w_srv w_view w_own]. fold own'.
+  (* ownership of everything in the new registry *)
+  assert (Hown' : forall x, In x (reg s') -> owner_is own' v x = mine (next s) t0 x).
+  { intros x Hx. rewrite Forall_forall in Hf'. specialize (Hf' x Hx).
+    destruct (le_lt_dec (next s) x) as [Hge|Hlt].
+    - unfold own'. rewrite owner_app_new by lia. rewrite Nat.eqb_refl.
+      unfold mine. apply Nat.leb_le in Hge. rewrite Hge. reflexivity.
+    - unfold own'. rewrite owner_app_old by lia.
+      destruct (mine (next s) t0 x) eqn:Mx.
+      + (* x is the presented token *)
+        assert (In x (reg s)).
+        { unfold mine in Mx. apply orb_true_iff in Mx as [Mx|Mx]; [apply Nat.leb_le in Mx; lia|].
+          apply onat_eqb_some in Mx.
+          assert (In x (filter (mine (next s) t0) (reg s))) by (rewrite Hm0; apply in_opt_list; exact Mx).
+          apply filter_In in H. apply H. }
+        apply Hown0; assumption.
+      + destruct (owner_is own v x) eqn:Ox; [|reflexivity]. exfalso.
+        assert (Hin : In x (filter (notmine (next s) t0) (reg s'))).
+        { apply filter_In. split; [exact Hx|]. unfold notmine. rewrite Mx. reflexivity. }
+        rewrite Ho' in Hin. apply filter_In in Hin as [Hin _].
+        assert (In x (live_of w v)) by (apply filter_In; split; assumption).
+        rewrite Hlive in H. fold t0 in H. apply in_opt_list in H.
+        unfold mine in Mx. apply orb_false_iff in Mx as [_ Mx].
+        assert (onat_eqb t0 (Some x) = true) by (apply onat_eqb_some; exact H). congruence. }
+  repeat split.
+  - unfold own'. rewrite app_length, repeat_length. lia.
+  - exact Hf'.
+  - unfold own'. apply Forall_app. split; [exact Hsome|]. apply Forall_repeat. exists v; reflexivity.
+  - intros u. unfold live_of. cbn [w_srv w_own]. fold own'. unfold upd.
+    destruct (u =? v) eqn:Euv.
+    + apply Nat.eqb_eq in Euv. subst u.
+      rewrite (filter_ext_in _ _ _ Hown'). exact Hm'.
+    + apply Nat.eqb_neq in Euv.
+      (* sessions of another view: untouched *)
+      rewrite (filter_filter_imp (owner_is own' u) (notmine (next s) t0) (reg s')).
+      2:{ intros x Hx Ou. unfold notmine. destruct (mine (next s) t0 x) eqn:Mx; [|reflexivity]. exfalso.
+          rewrite <- (Hown' x Hx) in Mx. apply Euv. eapply owner_unique; eassumption. }
+      rewrite Ho'.
+      rewrite (filter_ext_in (owner_is own' u) (owner_is own u) (filter (notmine (next s) t0) (reg s))).
+      2:{ intros x Hx. apply filter_In in Hx as [Hx _]. rewrite Forall_forall in Hf. specialize (Hf x Hx).
+          unfold own'. apply owner_app_old. lia. }
+      rewrite <- (filter_filter_imp (owner_is own u) (notmine (next s) t0) (reg s)).
+      2:{ intros x Hx Ou. unfold notmine. destruct (mine (next s) t0 x) eqn:Mx; [|reflexivity]. exfalso.
+          apply Euv. eapply owner_unique; [exact Ou | apply Hown0; assumption]. }
+      apply (Hlive u).
+Qed.
+
+(* a call outside any view (no opt-in, no token) leaves the worker untouched *)
+Lemma plain_noop : forall acts st,
+  r_ctx st = None ->
+  r_srv (fst (run_acts c false st acts)) = r_srv st.
+Proof.
+  induction acts as [|a acts IH]; intros st C; cbn [run_acts]; [reflexivity|].
+  destruct a; cbn [do_action].
+  - rewrite do_open_model. reflexivity.
+  - rewrite do_close_model, C.
+    rewrite (IH (mkRst (r_srv st) None (apply_upds None (r_sink st) (c_sink_close c)) (r_log st)) eq_refl). reflexivity.
+  - rewrite (IH (mkRst (r_srv st) (r_ctx st) (r_sink st) (r_log st ++ [r_ctx st])) C). reflexivity.
+  - apply IH. exact C.
+Qed.
+
+Lemma serve_plain s acts : fst (serve c s (mkReq None false acts)) = s.
+Proof.
+  unfold serve, dispatch. cbn [rq_tok rq_accept rq_acts].
+  pose proof (plain_noop acts (mkRst s None (mkSink None false) []) eq_refl) as H.
+  destruct (run_acts c false (mkRst s None (mkSink None false) []) acts) as [st e]. exact H.
+Qed.
+
+Lemma Inv_plain w acts : Inv w -> Inv (fst (step c w (EvPlain acts))).
+Proof.
+  intros [Hlen [Hf [Hsome Hlive]]]. cbn [step].
+  pose proof (serve_plain (w_srv w) acts) as E.
+  destruct (serve c (w_srv w) (mkReq None false acts)) as [s' rsp]. cbn [fst] in *. subst s'.
+  rewrite Nat.sub_diag. cbn [repeat]. rewrite app_nil_r.
+  unfold Inv. cbn [w_srv w_view w_own]. repeat split; try assumption.
+Qed.
+
+Lemma Inv_drain w b : Inv w -> Inv (fst (step c w (EvDrain b))).
+Proof.
+  intros [Hlen [Hf [Hsome Hlive]]]. cbn [step fst]. unfold Inv. cbn [w_srv w_view w_own reg next].
+  repeat split; try assumption.
+Qed.
+
+Lemma Inv_step w ev : client_event ev -> Inv w -> Inv (fst (step c w ev)).
+Proof.
+  intros Hc H. destruct ev as [v acts|acts|tok accept acts|b].
+  - apply Inv_view; exact H.
+  - apply Inv_plain; exact H.
+  - destruct Hc.
+  - apply Inv_drain; exact H.
+Qed.
+
+Lemma Inv_fold : forall h w, Forall client_event h -> Inv w ->
+  Inv (fold_left (fun w ev => fst (step c w ev)) h w).
+Proof.
+  induction h as [|ev h IH]; intros w Hc H; simpl; [exact H|].
+  inversion Hc as [|? ? Hev Hrest]; subst. apply IH; [exact Hrest|]. apply Inv_step; assumption.
+Qed.
+
+Lemma Inv_run h : Forall client_event h -> Inv (run c h).
+Proof. intros H. unfold run. apply Inv_fold; [exact H | exact Inv_world0]. Qed.
+
+Theorem view_equals_live h v :
+  Forall client_event h ->
+  live_of (run c h) v = opt_list (w_view (run c h) v).
+Proof. intros H. apply (Inv_run h H). Qed.
+
+Theorem no_live_session_orphaned h s :
+  Forall client_event h ->
+  In s (reg (w_srv (run c h))) -> exists v, w_view (run c h) v = Some s.
+Proof.
+  intros H Hin. destruct (Inv_run h H) as [Hlen [Hf [Hsome Hlive]]].
+  rewrite Forall_forall in Hf. specialize (Hf s Hin). rewrite <- Hlen in Hf.
+  destruct (nth_error (w_own (run c h)) s) as [o|] eqn:N; [|apply nth_error_None in N; lia].
+  rewrite Forall_forall in Hsome. destruct (Hsome o (nth_error_In _ _ N)) as [v Hv]. subst o.
+  exists v. apply in_opt_list. rewrite <- Hlive. unfold live_of. apply filter_In. split; [exact Hin|].
+  unfold owner_is. rewrite N. apply Nat.eqb_refl.
+Qed.
+
+End Good.
+
+(* the modelled (repaired) programs are good; so is the variant whose client applies the close flag first *)
+Lemma cfg_model_guards : c_open_guards cfg_model = model_guards.
+Proof. reflexivity. Qed.
+
+Lemma cfg_model_good : good_cfg cfg_model.
+Proof. intros t0 [[m|] [|]] n; repeat split; reflexivity. Qed.
